@@ -110,6 +110,8 @@ class VG(object):
         cands = [c for c in cands if rng.contains_root(c)]
         if cands and self.chance(65):
             return self.pick(cands)
+        if lo is None and hi is None:
+            return self.d(st.integers(-2 ** 66, 2 ** 66))
         a = lo if lo is not None else (hi - 2 ** 20)
         b = hi if hi is not None else (a + 2 ** 20)
         return self.d(st.integers(a, b))
